@@ -58,6 +58,7 @@ def h_capture(sx):
     saved = (list(root.handlers), root.level, logging.root.manager.disable)
     logging.disable(logging.NOTSET)
     user_handler = logging.StreamHandler(io.StringIO())
+    user_handler2 = logging.StreamHandler(io.StringIO())       # (an application usually has more than one: console + file)
     states = {}
     order = []
     toggled = []
@@ -66,6 +67,7 @@ def h_capture(sx):
         if name == "before_all":
             root.setLevel(logging.DEBUG)
             root.addHandler(user_handler)
+            root.addHandler(user_handler2)
             if p.get("capture_level_notset"):
                 root.setLevel(logging.WARNING)      # the application's own root level; capture level NOTSET = capture everything
             if p.get("stale_level_cache"):
@@ -185,7 +187,9 @@ def h_capture(sx):
     for where_, (hs_, lvl_) in seen:
         sx.check(not any(isinstance(h, LoggingCapture) for h in hs_), "C18.no-stale-capture-handler-after-scenario",
                  detail=lambda m, where_=where_, hs_=hs_: dict(det(m), at=where_, handlers=[type(h).__name__ for h in hs_]))
-        sx.check(user_handler in hs_, "C18.user-log-handlers-as-before-scenario", detail=lambda m, where_=where_: dict(det(m), at=where_))
+        users_ = [h for h in hs_ if not isinstance(h, LoggingCapture)]
+        sx.check(users_ == [user_handler, user_handler2], "C18.user-log-handlers-as-before-scenario",
+                 detail=lambda m, where_=where_, users_=users_: dict(det(m), at=where_, handlers=["user1" if h is user_handler else "user2" if h is user_handler2 else type(h).__name__ for h in users_]))
         sx.check(lvl_ == states.get("user-level", lvl_), "C18.root-log-level-as-before-scenario",
                  detail=lambda m, where_=where_, lvl_=lvl_: dict(det(m), at=where_, level=lvl_, level_set_by_application=states.get("user-level")))
     for sid, ((hs_before, lvl_before), (hs_after, lvl_after)) in enumerate(zip(befores[1:], afters)):
@@ -243,7 +247,7 @@ def jobs(tier, seed):
     shapes["switch-off-midrun"] = ([F([S(1), S(2)])], {"out_dom": {"*": [0, 1]}, "undef": False})
     shapes["nested"] = ([F([S(2), S(1)])], {"out_dom": {"*": [0, 1]}, "nested_steps": ["f0.i0.0", "f0.i1.0"], "undef": False})
     for name, (sh, opts) in shapes.items():
-        for clear in ((False,) if tier == "quick" else (False, True)):
+        for clear in ((False, True) if (tier != "quick" or name == "2sc") else (False,)):
             js.append(Job("capture.%s.c%d" % (name, clear), "props.c18:h_capture",
                           {"shapes": sh, "opts": opts, "fault": name == "hookfault", "clear_handlers": clear,
                            "log_filter": "other,-harness.fill" if name == "filter" else None, "stale_level_cache": name == "stale-level-cache", "capture_level_notset": name == "level-notset",
